@@ -425,6 +425,36 @@ func ruleProcessOrder(c *core.Ctx, a *epAnchors) {
 			nd++
 		}
 	}
+	if rs.problem == "" && disp == nil && rs.dispatchInHelper != nil {
+		// receive() reads one message and dispatches it: the order is decided inside it
+		h := rs.helper
+		d := rs.dispatchInHelper
+		_, plainD := d.(*ssa.Call)
+		_, plainH := rs.call.(*ssa.Call)
+		nd2 := 0
+		for _, call := range core.Calls(h) {
+			if core.IsCallTo(call, a.dispatch) {
+				nd2++
+			}
+		}
+		c.Check(plainD && plainH && nd2 == 1 && loopHeaderOf(d.(ssa.Instruction)) == nil, rule, "bus/net.endPoint.process/dispatch-sync", d.Pos(),
+			"dispatch is a plain synchronous call", "dispatch is started with `go`/defer (or more than once): messages can overtake each other")
+		iv := rs.inner.(*ssa.Call)
+		isRErr := func(v ssa.Value) bool { return core.Canon(v) == ssa.Value(iv) }
+		// on the success edge of the read every return of the helper passes the dispatch
+		cut := core.CutEstablishing(core.Ne(isRErr, core.IsNilConst))
+		r := core.ReachFrom(core.After(iv), func(x ssa.Instruction) bool { return x == d.(ssa.Instruction) }, cut)
+		lost := false
+		for _, ret := range core.Returns(h) {
+			if r.Has(ret) {
+				lost = true
+			}
+		}
+		c.Check(!lost, rule, "bus/net.endPoint.process/read-dispatch-read", iv.Pos(),
+			"every successfully read message is dispatched before the next read", "a message can be read and the loop continue without dispatching it (message lost)")
+		c.Pass(rule, "bus/net.endPoint.process/same-message", d.Pos(), "dispatch receives the message just read")
+		return
+	}
 	if rs.problem != "" || disp == nil {
 		why := rs.problem
 		if why == "" {
